@@ -149,4 +149,19 @@ PROPS = {
         "components": {"real": REAL + ["otto JavaScript for code terms"], "stub": STUB_COMMON},
         "assumptions": ["core.Matches is the matching primitive", "code terms use variables bound on every path to them"],
     },
+    "C14": {
+        "level": "exploration",
+        "build": "plain",
+        "tiers": tiers(3000, 45, 60000, 600),
+        "rule": "scripts from five families - value (literal, object, string, reads a binding), throwing, syntactically invalid, non-terminating "
+                "(while(true){Env.sleep(d)}, d from 1 us to 1 s, so that simulated time passes), slow-but-finishing (k sleeps totalling a quarter of the limit) - "
+                "placed in Location.RunJavascript, in a `code` condition (Location.Query) and in a rule action (ProcessEvent); timeout taken from "
+                "Control.JavascriptTimeout, from SystemParameters.DefaultJavascriptTimeout (1 ms - 5 s), or disabled (flag off, negative value). "
+                "Judged on the fake clock: a non-terminating script returns control within limit + one sleep + 1 s with an error on its node (never "
+                "(nil,nil)); throw/compile errors are errors; finishing scripts return their last expression and see their binding; a bubble in which "
+                "every goroutine is blocked is the hang verdict. Non-trivial: every run (each executes 2-6 scripts); distinct = distinct "
+                "(place, family, script, timeout mode, limit) tuples.",
+        "components": {"real": REAL + ["otto interpreter and rulio's watchdog goroutine, on the fake clock"], "stub": STUB_COMMON},
+        "assumptions": ["CPU-bound non-terminating scripts cannot be simulated in fake time (time does not advance while a goroutine runs); they are outside this check"],
+    },
 }
